@@ -524,13 +524,13 @@ theorem freeCount_cons_lt (env : Env) (v : Str) (ck : List Str) (inner : Str)
 variable (env : Env) (elref : Str → Res α)
 
 theorem lookupN_ne_outOfFuel (hel : ∀ v, elref v ≠ .error .outOfFuel) :
-    ∀ (n : Nat) (v : Str) (ck : List Str) (st : σ), freeCount env ck + 1 ≤ n →
-      lookupN o env elref n v ck st ≠ .error .outOfFuel := by
+    ∀ (n base : Nat) (v : Str) (ck : List Str) (st : σ), freeCount env ck + 1 ≤ n →
+      lookupN o env elref n base v ck st ≠ .error .outOfFuel := by
   intro n
   induction n with
-  | zero => intro v ck st h; omega
+  | zero => intro base v ck st h; omega
   | succ n ih =>
-    intro v ck st hn
+    intro base v ck st hn
     unfold lookupN
     split
     · simp
@@ -548,14 +548,17 @@ theorem lookupN_ne_outOfFuel (hel : ∀ v, elref v ≠ .error .outOfFuel) :
           subst h
           cases this
         · simp
-        · exact evaluate_ne_outOfFuel_ck o (lookupN o env elref n) elref (v :: ck)
-            (fun v' st' => ih v' (v :: ck) st' (by omega)) hel _ st
+        · unfold evaluateAt
+          split
+          · simp
+          · exact evaluate_ne_outOfFuel_ck o (lookupN o env elref n _) elref (v :: ck)
+              (fun v' st' => ih _ v' (v :: ck) st' (by omega)) hel _ st
 
 /-- (2) the cycle check bounds the nesting depth: `env.length + 1` levels are always enough,
     whatever `checked_vars` the caller starts from -/
-theorem lookup_ne_outOfFuel (hel : ∀ v, elref v ≠ .error .outOfFuel) (v : Str) (ck : List Str)
-    (st : σ) : lookup o env elref v ck st ≠ .error .outOfFuel :=
-  lookupN_ne_outOfFuel o env elref hel (env.length + 1) v ck st
+theorem lookup_ne_outOfFuel (hel : ∀ v, elref v ≠ .error .outOfFuel) (base : Nat) (v : Str)
+    (ck : List Str) (st : σ) : lookup o env elref base v ck st ≠ .error .outOfFuel :=
+  lookupN_ne_outOfFuel o env elref hel (env.length + 1) base v ck st
     (by have := freeCount_le env ck; omega)
 
 end
@@ -693,8 +696,12 @@ theorem evalStr_ne_outOfFuel (hel : ∀ v, elref v ≠ .error .outOfFuel) (value
     subst h
     cases tokenize_error o _ _ he
   · rename_i ts hts
-    have hv := evaluate_ne_outOfFuel o (lookup o env elref) elref
-      (fun v ck st => lookup_ne_outOfFuel o env elref hel v ck st) hel [] ts st
+    have hv : evaluateAt o (lookup o env elref) elref 0 [] ts st ≠ .error .outOfFuel := by
+      unfold evaluateAt
+      split
+      · simp
+      · exact evaluate_ne_outOfFuel o (lookup o env elref _) elref
+          (fun v ck st => lookup_ne_outOfFuel o env elref hel _ v ck st) hel [] ts st
     split
     · simp
     · rename_i e he
@@ -808,8 +815,12 @@ theorem evalList_ne_outOfFuel (value : Str) (st : σ) :
       subst h
       cases tokenize_error o _ _ he
     · rename_i ts _
-      have hv := evaluate_ne_outOfFuel o (lookup o env elref) elref
-        (fun v ck st => lookup_ne_outOfFuel o env elref hel v ck st) hel [] ts st
+      have hv : evaluateAt o (lookup o env elref) elref 0 [] ts st ≠ .error .outOfFuel := by
+        unfold evaluateAt
+        split
+        · simp
+        · exact evaluate_ne_outOfFuel o (lookup o env elref _) elref
+            (fun v ck st => lookup_ne_outOfFuel o env elref hel _ v ck st) hel [] ts st
       split
       · simp
       · rename_i e he
@@ -984,8 +995,8 @@ example : evalStr ops chainEnv noRef cs!"$a" 0 = .ok (cs!"9", 0) := by decide
 -- a cycle through the whole environment: `CircularRefError`, not `outOfFuel`
 example : evalStr ops loopEnv noRef cs!"$a" 0 = .error .circular := by decide
 -- sharpness of `env.length + 1`: with only `env.length` levels the cycle WOULD be an `outOfFuel`
-example : errOf (lookupN ops loopEnv noRef loopEnv.length cs!"a" [] 0) = some .outOfFuel := by decide
-example : errOf (lookup ops loopEnv noRef cs!"a" [] 0) = some .circular := by decide
+example : errOf (lookupN ops loopEnv noRef loopEnv.length 0 cs!"a" [] 0) = some .outOfFuel := by decide
+example : errOf (lookup ops loopEnv noRef 0 cs!"a" [] 0) = some .circular := by decide
 
 end FuelDemo
 
